@@ -1223,6 +1223,11 @@ func (f *Frame) safe(pc, kind string, pos token.Pos, goal, desc string) {
 		return
 	}
 	if f.root().con != nil && (f.root().con.MayPanic || f.root().con.Rethrows) {
+		if f.root().con.OwnBounds && f.parent == nil && (kind == "index" || kind == "slice") {
+			// own_bounds: the index and slice operations written in this function itself stay obligations
+			f.vc.oblige("safe", fmt.Sprintf("%s#safe:%s@%s", f.vc.fnName, kind, f.site(pos)), pc, goal, f.pos(pos), desc)
+			return
+		}
 		// the panicking execution does not return normally (recover is refused in this mode)
 		f.vc.assume(pc, goal)
 		return
